@@ -68,8 +68,9 @@ func capacityConsumers() []string {
 		"(any (many a) (sepby a b) (opt a))",
 		"(any (many b) (many a) (sepby a b))",
 		"(any (many a) (sepby a b) (opt a) (many (seq a b)) (sepby b a))",
+		"(any (seq a) (seq a b) a)", // alternatives that are one-child non-terminals (what Single rewrites)
 	}
-	menu := []string{"S0", "(any S0 a)", "(any S0 b)", "(any S0 (seq a b))", "(any S0 (seq a a))", "(opt S0)", "(any a S0)", "(any (seq a b) S0)", "(choice S0 a)"}
+	menu := []string{"(single S0)", "S0", "(any S0 a)", "(any S0 b)", "(any S0 (seq a b))", "(any S0 (seq a a))", "(opt S0)", "(any a S0)", "(any (seq a b) S0)", "(choice S0 a)"}
 	var out []string
 	for _, body := range bodies {
 		for _, e1 := range menu {
@@ -406,7 +407,7 @@ func init() {
 		Level: "model_checking",
 		Rule: "every left-recursion-free grammar of the stated spaces (root expression + shared sub-parsers referenced from several sites + inline Memoize marks) x every subset of shared sub-parsers memoized x every input x every start position; " +
 			"differential against the same grammar built without any Memoize: ordered results, returned error (position+text), position of Context.Error(); body executions per (memoized parser, position) <= 1; second run on a fresh context identical incl. CallCount; " +
-			"plus 3 240 capacity-consumer grammars (a memoized parser with 2/3/5 zero-width alternatives requested two or three times at one position by list-extending consumers inside a sequence); " +
+			"plus 5 000 capacity-consumer grammars (a memoized parser with 2/3/5 zero-width alternatives requested two or three times at one position by list-extending consumers inside a sequence); " +
 			"plus four two-parser grammars built with the second memoized parser's cache index 2^k (k = 8..17) away from the first; transition = one parser call; non-trivial = a case with at least one cache hit (a request answered without running the body)",
 		Assume: []string{"the un-memoized build of the same library is the reference (C01 ties it to the semantics)"},
 		Run:    c03Run,
